@@ -93,7 +93,8 @@ func TestVerifE2E(t *testing.T) {
 		setSysctl := func(iface, key, v string) error {
 			return os.WriteFile(filepath.Join("/proc/sys/net/ipv6/conf", iface, key), []byte(v), 0o644)
 		}
-		steps := [][]string{{"link", "set", "lo", "up"}, {"link", "add", "vr0", "type", "veth", "peer", "name", "vp0"}}
+		steps := [][]string{{"link", "set", "lo", "up"}, {"link", "add", "vr0", "type", "veth", "peer", "name", "vp0"},
+			{"link", "add", "vd0", "type", "veth", "peer", "name", "vd1"}} // vd0/vd1 are never brought up
 		for _, s := range steps {
 			if err := ip(s...); err != nil {
 				res.unavailable = err.Error()
@@ -148,6 +149,15 @@ default_lifetime = "600s"
 
   [[interfaces.prefix]]
   prefix = "2001:db8:e2e::/64"
+
+# an interface that exists but stays down while the daemon runs: its advertiser keeps retrying and never reports ready
+[[interfaces]]
+name = "vd0"
+advertise = true
+source_lla = false
+
+  [[interfaces.prefix]]
+  prefix = "2001:db8:e2f::/64"
 
 [debug]
 address = "` + addr + `"
@@ -246,8 +256,10 @@ prometheus = true
 					o.fwdGauge = "absent"
 				}
 				o.misconfigured = "absent"
-				if m := misRE.FindStringSubmatch(body); m != nil {
-					o.misconfigured = m[1]
+				for _, m := range misRE.FindAllStringSubmatch(body, -1) {
+					if strings.Contains(m[0], `interface="vr0"`) {
+						o.misconfigured = m[1]
+					}
 				}
 			}
 			st, body = get("/_/api/interfaces")
@@ -260,9 +272,13 @@ prometheus = true
 				} `json:"interfaces"`
 			}
 			o.apiLifetime = fmt.Sprintf("HTTP %d", st)
-			if st == 200 && json.Unmarshal([]byte(body), &api) == nil && len(api.Interfaces) == 1 && api.Interfaces[0].Advertisement != nil &&
-				api.Interfaces[0].Advertisement.RouterLifetimeSeconds != nil {
-				o.apiLifetime = fmt.Sprint(*api.Interfaces[0].Advertisement.RouterLifetimeSeconds)
+			if st == 200 && json.Unmarshal([]byte(body), &api) == nil {
+				o.apiLifetime = "absent"
+				for _, ifi := range api.Interfaces {
+					if ifi.Interface == "vr0" && ifi.Advertisement != nil && ifi.Advertisement.RouterLifetimeSeconds != nil {
+						o.apiLifetime = fmt.Sprint(*ifi.Advertisement.RouterLifetimeSeconds)
+					}
+				}
 			}
 			// a host solicits: the answer describes the router as it is now
 			_ = peer.WriteTo(&ndp.RouterSolicitation{}, nil, netip.MustParseAddr("ff02::2"))
